@@ -326,8 +326,8 @@ GROUPS += [
     },
     # ------------------------------------------------------------------ thorough-only groups
     {
-        "id": "T.base_case", "property": "C07", "crate": "core", "tier": "thorough", "stubbing": True, "best_effort": True,
-        "harnesses": ["c07_base_case_new_satisfies_inv"], "jobs": 1, "timeout_s": 3000, "mem_gb": 24,
+        "id": "T.base_case", "property": "C07", "crate": "core", "tier": "thorough", "stubbing": True,
+        "harnesses": ["c07_base_case_new_satisfies_inv"], "jobs": 1, "timeout_s": 2400, "mem_gb": 24,
         "functions": ["TracerState::new"], "stubs": [CLOCK_STUB],
         "bounds": "the real constructor (512-iteration from_fn) for every accepted configuration: base case of the induction",
     },
